@@ -367,10 +367,12 @@ func init() {
 
 	I := externInvoke
 	I["(sync.Locker).Lock"] = func(fr *Frame, c *ssa.CallCommon, recv *Val, a []*Val, pos token.Pos) *Val {
+		fr.curLockArg = c.Value // `cond.L.Lock()`: anchors `lock L` / `unlock L`
 		fr.doLock(sx("ival", recv.T), pos)
 		return nil
 	}
 	I["(sync.Locker).Unlock"] = func(fr *Frame, c *ssa.CallCommon, recv *Val, a []*Val, pos token.Pos) *Val {
+		fr.curLockArg = c.Value
 		fr.doUnlock(sx("ival", recv.T), pos)
 		return nil
 	}
